@@ -47,7 +47,7 @@ func describeTag(tag string) string {
 func parseGroups(doc *yaml.Node, schema Schema, offsetLine, offsetColumn int, contentLines []string) (groups []Group, _ ParseError) {
 	names := map[string]struct{}{}
 
-	for _, node := range unpackNodes(doc) {
+	for _, node := range doc.Content {
 		if !isTag(node.ShortTag(), mapTag) {
 			return nil, ParseError{
 				Line: node.Line,
